@@ -253,6 +253,10 @@ def run(R, only=None):
             # bounds that are not INT constants: they must not be pushed into the scan
             (f"select k, v from p where k > cast({c} as bigint)", None), (f"select k, v from p where k <= {c}.5", None),
             (f"select k, v from p where k = cast({c2} as bigint) and v is not null", None),
+            # a composite key declared against the column order (the storage sorts on the key columns in column order)
+            ("select a, b, v from cc order by b", [(1, False)]), ("select a, b, v from cc order by b, a", [(1, False), (0, False)]),
+            ("select a, b, v from cc order by a", [(0, False)]), ("select a, b, v from cc order by a, b", [(0, False), (1, False)]),
+            ("select b, count(*) from cc group by b", None), ("select a, count(*) from cc group by a", None),
             ("select k, v from p order by k, v", [(0, False), (1, False)]), ("select k, v from p order by k, v desc", [(0, False), (1, True)]),
             ("select k, v from p order by k", [(0, False)]),
             ("select k, v from (select k, v from p order by k) t order by k, v", [(0, False), (1, False)]),
@@ -270,7 +274,12 @@ def run(R, only=None):
             ("select a.x, a.y from a where exists (select 1 from p where p.k = a.x and p.v > a.y)", None),
         ])
         a_b, b_b = c02.gen_db(rng)
-        steps = [{"sql": "create table p(k int primary key, v int)"}, {"sql": "create table a(x int, y int, s varchar)"}]
+        steps = [{"sql": "create table p(k int primary key, v int)"}, {"sql": "create table a(x int, y int, s varchar)"},
+                 {"sql": "create table cc(a int, b int, v int, primary key(b, a))"}]
+        ccrows = [(rng.randint(0, 5), rng.randint(0, 3), rng.randint(0, 9)) for _ in range(rng.randint(2, 9))]
+        for part in (ccrows[: len(ccrows) // 2], ccrows[len(ccrows) // 2:]):
+            if part:
+                steps.append({"sql": "insert into cc values " + ", ".join(f"({x}, {y}, {z})" for x, y, z in part)})
         for part in (rows[: len(rows) // 2], rows[len(rows) // 2:]):
             if part:
                 steps.append({"sql": "insert into p values " + ", ".join(f"({k}, {c02.lit(v)})" for k, v in part)})
